@@ -477,6 +477,8 @@ pub struct GenOpts {
     pub max_fixtures: usize,
     pub max_tests: usize,
     pub self_dep_per_mille: u32,
+    /// a second definition of a name in one file is, with this chance, the override of it in the body of a test class
+    pub class_override_per_mille: u32,
     pub dup_names: bool,
     pub scopes: bool,
     pub alias: bool,
@@ -496,7 +498,7 @@ pub struct GenOpts {
 
 impl Default for GenOpts {
     fn default() -> Self {
-        GenOpts { max_fixtures: 3, max_tests: 2, self_dep_per_mille: 150, dup_names: false, scopes: true, alias: true, in_class: true, marks: true, body_uses: true, assign_style: true, acyclic: false, multiline_per_mille: 120, test_prefixed_fixtures: true, unicode_test_names_per_mille: 0 }
+        GenOpts { max_fixtures: 3, max_tests: 2, self_dep_per_mille: 150, class_override_per_mille: 0, dup_names: false, scopes: true, alias: true, in_class: true, marks: true, body_uses: true, assign_style: true, acyclic: false, multiline_per_mille: 120, test_prefixed_fixtures: true, unicode_test_names_per_mille: 0 }
     }
 }
 
@@ -518,13 +520,15 @@ pub fn gen_items(rng: &mut Rng, names: &[String], is_test_file: bool, o: &GenOpt
         if !o.dup_names && used.contains(&func) {
             continue;
         }
+        // a second definition of a name already defined in this file: often the override of it in a test class
+        let is_dup = used.contains(&func);
         used.push(func.clone());
         let mut deps: Vec<String> = subset(rng, names, 2).into_iter().filter(|d| *d != func).collect();
         if o.acyclic {
             let pos = |n: &String| names.iter().position(|x| x == n).unwrap_or(0);
             let me = pos(&func);
             deps.retain(|d| pos(d) > me);
-        } else if rng.chance(o.self_dep_per_mille) {
+        } else if rng.chance(if is_dup && o.self_dep_per_mille > 0 { 400 } else { o.self_dep_per_mille }) {
             deps.insert(rng.below(deps.len() + 1), func.clone());
         }
         let style = if o.assign_style && rng.chance(60) { 2 } else { rng.below(2) as u8 };
@@ -544,7 +548,7 @@ pub fn gen_items(rng: &mut Rng, names: &[String], is_test_file: bool, o: &GenOpt
             generator: rng.chance(300),
             ret: if rng.chance(300) { Some(rng.pick(&["int", "str", "dict[str, int]"]).to_string()) } else { None },
             style,
-            in_class: o.in_class && style != 2 && rng.chance(60),
+            in_class: style != 2 && if is_dup && o.class_override_per_mille > 0 { rng.chance(o.class_override_per_mille) } else { o.in_class && rng.chance(60) },
             doc: if rng.chance(200) { Some("doc".to_string()) } else { None },
             body_uses: if o.body_uses && style != 2 && rng.chance(150) { subset(rng, names, 1) } else { vec![] },
             multiline: rng.chance(o.multiline_per_mille),
